@@ -183,6 +183,10 @@ def run(ctx):
         recs, okrun, log = ctx.go_harness(PKG, ["zz_verif_k8s_test.go", "zz_verif_kproj_test.go"], "TestVerifK8s$", n=n, seed=seed, tag=tag,
                                           extra_overlay={PKG + "/zz_verif_gen_test.go": gen})
         cases = records(recs, okrun, log, "TestVerifK8s")
+        # histories through the real NewSession / Set / refused Set / Close / SyncBFDProfiles
+        recs, okrun, log = ctx.go_harness(PKG, ["zz_verif_k8s_test.go", "zz_verif_kproj_test.go"], "TestVerifK8sHist$", n=max(30, (n * 2) // 5),
+                                          seed=seed, tag=tag + "hist", extra_overlay={PKG + "/zz_verif_gen_test.go": gen})
+        cases += records(recs, okrun, log, "TestVerifK8sHist")
         # the real FRRK8sReconciler fed by the real session manager (fake API server): generator and projection
         # are shared source files with the package clause rewritten
         ov = {}
@@ -236,11 +240,18 @@ def run(ctx):
         return cases + pwcases, mism
 
     cases, mism = harness(n, ctx.seed, "h", True)
+    # group spk, harness/speaker/zz_verif_bgp_test.go TestVerifBgpSessParams: SetConfig sequences changing one peer field at a
+    # time (incl. only the secret reference) in native / frr / frr-k8s pass-through / frr-k8s convert mode; every selected peer
+    # has exactly one live session whose NewSession arguments (incl. password / secret reference) equal the current configuration
+    recs, okrun, log = ctx.go_harness("speaker", ["zz_verif_bgp_test.go"], "TestVerifBgpSessParams$", n=6 if ctx.tier == "quick" else 100,
+                                      seed=ctx.seed, tag="sp")
+    records(recs, okrun, log, "TestVerifBgpSessParams")
     st = state["stats"]
     if cases and not ctx.corr_broken and not ctx.violations:
         for k in ("input_with_password_and_secret", "secret_ref", "password", "unnumbered", "repeated_prefix", "repeated_prefix_other_localpref",
                   "adv_with_localpref", "communities", "neighbor_without_advertisement", "multi_neighbor", "pw_cases",
-                  "reconciled_cases", "reconciled_at_debug", "reconciled_with_password", "reconciled_with_secret_ref"):
+                  "reconciled_cases", "reconciled_at_debug", "reconciled_with_password", "reconciled_with_secret_ref",
+                  "k8s_histories", "k8s_hist_rejected_set", "k8s_hist_resync", "k8s_hist_close", "k8s_hist_set"):
             if st.get(k, 0) == 0:
                 raise Exception("generator degenerate: counter %s is zero: %r" % (k, st))
 
